@@ -404,16 +404,40 @@ func groups(w *mon.W) {
 		// in the middle, at the end) or not at all (hertz's default 404/405 answer)
 		noRouteAt, noMethodAt := r.Intn(nops+3)-1, r.Intn(nops+3)-1
 		haveNoRoute, haveNoMethod := false, false
+		emptyMode := [2]int{r.Intn(6), r.Intn(6)}
 		install := func(k int) {
+			// (... or called without handlers — a configuration with an empty list, or the
+			// removal of a handler installed earlier: the default answer again, behind the
+			// same engine-level middleware)
 			if k == noRouteAt {
-				e.NoRoute(h("noroute"))
-				haveNoRoute = true
-				ops = append(ops, "NoRoute")
+				switch emptyMode[0] {
+				case 0:
+					e.NoRoute()
+					ops = append(ops, "NoRoute()")
+				case 1:
+					e.NoRoute(h("noroute"))
+					e.NoRoute()
+					ops = append(ops, "NoRoute(h)", "NoRoute()")
+				default:
+					e.NoRoute(h("noroute"))
+					haveNoRoute = true
+					ops = append(ops, "NoRoute")
+				}
 			}
 			if k == noMethodAt {
-				e.NoMethod(h("nomethod"))
-				haveNoMethod = true
-				ops = append(ops, "NoMethod")
+				switch emptyMode[1] {
+				case 0:
+					e.NoMethod()
+					ops = append(ops, "NoMethod()")
+				case 1:
+					e.NoMethod(h("nomethod"))
+					e.NoMethod()
+					ops = append(ops, "NoMethod(h)", "NoMethod()")
+				default:
+					e.NoMethod(h("nomethod"))
+					haveNoMethod = true
+					ops = append(ops, "NoMethod")
+				}
 			}
 		}
 		defer func() {}()
